@@ -2,7 +2,7 @@
 From Coq Require Import List ZArith Bool Lia.
 Import ListNotations.
 Require Import DV.Common.Base DV.Common.ListLemmas DV.Core.Diagram DV.Core.WF
-  DV.Core.DiagramLemmas DV.Core.Rewriting DV.Core.RewritingLemmas DV.Core.Perm
+  DV.Core.DiagramLemmas DV.Core.Rewriting DV.Core.RewritingLemmas DV.Core.Foliate DV.Core.FoliateLemmas DV.Core.Perm
   DV.Core.Route DV.Core.PermLemmas DV.Core.Rigid DV.Core.Functor DV.Core.Prog.
 Open Scope Z_scope.
 
@@ -159,6 +159,15 @@ Proof.
     eapply dtranspose_wf; [apply (IHp _ Ea)|exact E].
   - (* PFunctor *) intros obs ars IHa p IHp v H. cbn [run] in H. ret H. sub E a Ea.
     step E m Em. eapply f_apply_wf; [|exact E]. cbn [far]. apply IHa. reflexivity.
+  - (* PFoliate *) intros p IHp v H. cbn [run] in H. sub H a Ea.
+    destruct (foliate a) as [[steps slices]|] eqn:Ef; [cbn [bind] in H|discriminate].
+    inversion H; subst. cbn [wf_value fst].
+    destruct (foliate_wf _ _ _ (IHp _ Ea) Ef) as [F1 _].
+    eapply Forall_impl; [|exact F1]. cbn. tauto.
+  - (* PFoliation *) intros p IHp v H. cbn [run] in H. sub H a Ea.
+    destruct (foliate a) as [[steps slices]|] eqn:Ef; [cbn [bind] in H|discriminate].
+    inversion H; subst. cbn [wf_value snd].
+    destruct (foliate_wf _ _ _ (IHp _ Ea) Ef) as [_ F2]. exact F2.
   - (* ANil *) intros m H. inversion H; subst. constructor.
   - (* ACons *) intros b img IHi rest IHr m H. cbn [run_ars] in H.
     destruct (as_diagram (run img)) as [d|] eqn:Ed; [cbn [bind] in H; apply as_diagram_ok in Ed|discriminate].
